@@ -94,6 +94,20 @@ Theorem c12_bpf_extract_preserves_verdict : forall v tbl nm nnm tiers profs p, p
 Proof. exact bpf_ref_verdict. Qed.
 Print Assumptions c12_bpf_extract_preserves_verdict.
 
+(* A TIER WHOSE POLICIES ARE ALL STAGED IS A NO-OP, wherever it stands (end-of-tier action included): for the checker
+   model unconditionally (any variant, store, rules - inside the fragment or not - and packet) and for the reference.
+   With c12_agree this is the layout the seeded change endoftierdrop-hoisted breaks in the iptables/nftables renderer. *)
+Theorem c12_staged_only_tier_inert : forall kv tbl pre t post profs p,
+  forallb kp_staged (kt_policies t) = true ->
+  chk_endpoint kv tbl (pre ++ t :: post) profs p = chk_endpoint kv tbl (pre ++ post) profs p
+  /\ forall v, ref_verdict v tbl (pre ++ t :: post) profs p = ref_verdict v tbl (pre ++ post) profs p.
+Proof.
+  exact (fun kv tbl pre t post profs p H =>
+           conj (staged_only_tier_checker kv tbl pre t post profs p H)
+                (fun v => staged_only_tier_ref (ref_sets v tbl) pre t post (map kf_rules profs) p H)).
+Qed.
+Print Assumptions c12_staged_only_tier_inert.
+
 (* one rule: match.go's verdict on a rule of the fragment is PolicyRef.rule_matches *)
 Theorem c12_rule_match : forall kv v tbl r p,
   store_in_fragment kv v tbl = true -> rule_in_fragment kv v tbl r = true ->
